@@ -136,15 +136,31 @@ theorem vis_saveGroup (a b : MemStore) (h : vis a = vis b) (g : Group) :
     exact vis_putByNid _ _ (vis_putGroups _ _ (by rfl) _) _
 
 /-- the part of `save_message` that makes room in a full group -/
-def capEvict (s : MemStore) (m : Msg) (pick : Option Nat) : MemStore :=
+def capEvict (s : MemStore) (m : Msg) : MemStore :=
   if capHit s m then
-    match victim (groupMsgs s.u m.gid) pick with
+    match victim (groupMsgs s.u m.gid) with
     | some v => { s with u := { s.u with msgs := s.u.msgs.filter (fun x => !(x.gid == m.gid && x.id == v)) }, byId := aerase v s.byId, qById := qRemove v s.qById, evlog := (9, v) :: s.evlog }
     | none => s
   else s
 
-theorem vis_capEvict (a b : MemStore) (h : vis a = vis b) (m : Msg) (pick : Option Nat) :
-    vis (capEvict a m pick) = vis (capEvict b m pick) := by
+theorem saveMessage_eq (a : MemStore) (m : Msg) :
+    saveMessage a m = if (findGroup a.u m.gid).isNone then none
+      else if m.gid ∈ a.qMsgGroups then
+        some (putById { capEvict a m with u := { (capEvict a m).u with msgs := upsertMsg m (capEvict a m).u.msgs }, qMsgGroups := qPromote m.gid (capEvict a m).qMsgGroups, byId := ainsert m.id m (capEvict a m).byId } m.id)
+      else some (putById { putMsgGroups { a with u := { a.u with msgs := upsertMsg m a.u.msgs } } m.gid with byId := ainsert m.id m (putMsgGroups { a with u := { a.u with msgs := upsertMsg m a.u.msgs } } m.gid).byId } m.id) := rfl
+
+theorem capEvict_msgs (a : MemStore) (m : Msg) :
+    (capEvict a m).u.msgs = match (if capHit a m then victim (groupMsgs a.u m.gid) else none) with
+      | some v => a.u.msgs.filter (fun x => !(x.gid == m.gid && x.id == v))
+      | none => a.u.msgs := by
+  unfold capEvict
+  by_cases c : capHit a m = true
+  · rw [if_pos c, if_pos c]
+    cases victim (groupMsgs a.u m.gid) <;> rfl
+  · rw [if_neg c, if_neg c]
+
+theorem vis_capEvict (a b : MemStore) (h : vis a = vis b) (m : Msg) :
+    vis (capEvict a m) = vis (capEvict b m) := by
   obtain ⟨c1, m1, u1, bi1, g1, n1, r1, x1, w1, p1, i1, mg1, pm1, e1⟩ := a
   obtain ⟨c2, m2, u2, bi2, g2, n2, r2, x2, w2, p2, i2, mg2, pm2, e2⟩ := b
   simp only [vis, MemStore.mk.injEq] at h
@@ -156,21 +172,21 @@ theorem vis_capEvict (a b : MemStore) (h : vis a = vis b) (m : Msg) (pick : Opti
   by_cases c : capHit { cap := c1, msgCap := m1, u := u1, byId := bi2, qGroups := g1, qByNid := n1, qRelays := r1, qSecrets := x1, qWelcomes := w1, qPws := p1, qById := i2, qMsgGroups := mg1, qPms := pm1, evlog := e2 } m = true
   · rw [if_pos c, if_pos c]
     simp only []
-    cases victim (groupMsgs u1 m.gid) pick <;> rfl
+    cases victim (groupMsgs u1 m.gid) <;> rfl
   · rw [if_neg c, if_neg c]; rfl
 
-theorem vis_saveMessage (a b : MemStore) (h : vis a = vis b) (m : Msg) (pick : Option Nat) :
-    (saveMessage a m pick).isSome = (saveMessage b m pick).isSome ∧
-    ∀ x y, saveMessage a m pick = some x → saveMessage b m pick = some y → vis x = vis y := by
-  have hce := vis_capEvict a b h m pick
+theorem vis_saveMessage (a b : MemStore) (h : vis a = vis b) (m : Msg) :
+    (saveMessage a m).isSome = (saveMessage b m).isSome ∧
+    ∀ x y, saveMessage a m = some x → saveMessage b m = some y → vis x = vis y := by
+  have hce := vis_capEvict a b h m
   obtain ⟨h1, h2, h3, h4, h5, h6, h7, h8, h9, h10, h11⟩ := vis_fields a b h
-  have ea : saveMessage a m pick = if (findGroup a.u m.gid).isNone then none
+  have ea : saveMessage a m = if (findGroup a.u m.gid).isNone then none
       else if m.gid ∈ a.qMsgGroups then
-        some (putById { capEvict a m pick with u := { (capEvict a m pick).u with msgs := upsertMsg m (capEvict a m pick).u.msgs }, qMsgGroups := qPromote m.gid (capEvict a m pick).qMsgGroups, byId := ainsert m.id m (capEvict a m pick).byId } m.id)
+        some (putById { capEvict a m with u := { (capEvict a m).u with msgs := upsertMsg m (capEvict a m).u.msgs }, qMsgGroups := qPromote m.gid (capEvict a m).qMsgGroups, byId := ainsert m.id m (capEvict a m).byId } m.id)
       else some (putById { putMsgGroups { a with u := { a.u with msgs := upsertMsg m a.u.msgs } } m.gid with byId := ainsert m.id m (putMsgGroups { a with u := { a.u with msgs := upsertMsg m a.u.msgs } } m.gid).byId } m.id) := rfl
-  have eb : saveMessage b m pick = if (findGroup b.u m.gid).isNone then none
+  have eb : saveMessage b m = if (findGroup b.u m.gid).isNone then none
       else if m.gid ∈ b.qMsgGroups then
-        some (putById { capEvict b m pick with u := { (capEvict b m pick).u with msgs := upsertMsg m (capEvict b m pick).u.msgs }, qMsgGroups := qPromote m.gid (capEvict b m pick).qMsgGroups, byId := ainsert m.id m (capEvict b m pick).byId } m.id)
+        some (putById { capEvict b m with u := { (capEvict b m).u with msgs := upsertMsg m (capEvict b m).u.msgs }, qMsgGroups := qPromote m.gid (capEvict b m).qMsgGroups, byId := ainsert m.id m (capEvict b m).byId } m.id)
       else some (putById { putMsgGroups { b with u := { b.u with msgs := upsertMsg m b.u.msgs } } m.gid with byId := ainsert m.id m (putMsgGroups { b with u := { b.u with msgs := upsertMsg m b.u.msgs } } m.gid).byId } m.id) := rfl
   rw [ea, eb]
   by_cases c1 : (findGroup b.u m.gid).isNone = true
@@ -224,7 +240,7 @@ theorem vis_step (a b : MemStore) (h : vis a = vis b) (op : Op) (ch : List Nat) 
         | none => rw [hb] at hn; simp at hn
         | some y => exact ⟨rfl, hs x y ha hb⟩
   case saveMessage m =>
-    have hsm := vis_saveMessage _ _ h0 m ch.head?
+    have hsm := vis_saveMessage _ _ h0 m
     exact vis_okErr _ _ _ _ h0 hsm.1 hsm.2
   case savePm p => exact ⟨rfl, vis_putPms _ _ (by rfl) _⟩
   case savePw p => exact ⟨rfl, vis_putPws _ _ (by rfl) _⟩
